@@ -71,6 +71,7 @@ type txSpec struct {
 	Bytecode  []byte   // deploy_contract
 	Forward   []logicT // compass_update_batch
 	Raw       []byte   // upload
+	Split     int      // upload: length of the bytecode = offset at which the constructor input starts in Raw
 }
 
 var parsedABI *abi.ABI
@@ -568,7 +569,111 @@ func catalogue() []corruption {
 			s.Raw[len(s.Raw)-1-c.r.Intn(32)] ^= byte(1 << uint(c.r.Intn(8)))
 			return true
 		}},
+		// --- insertions: every byte of the faithful encoding is still there, in order, but foreign
+		// bytes sit between two of its parts (head and tail of the data stay what they were)
+		{Name: "inserted-bytes", Actions: allActions, Bytes: func(c *corruptCtx, s *txSpec, d []byte) []byte {
+			n := []int{1, 4, 32, 64}[c.r.Intn(4)]
+			ext := make([]byte, n)
+			if c.r.Intn(3) > 0 {
+				c.r.Read(ext)
+				ext[0] |= 1
+			}
+			pos := -1
+			if s.Action == actUpload {
+				// between bytecode and constructor input, or in front of the last k words
+				switch k := len(d) / 32; {
+				case s.Split > 0 && s.Split < len(d) && c.r.Intn(2) == 0:
+					pos = s.Split
+				case k >= 1:
+					if k > 12 {
+						k = 12
+					}
+					pos = len(d) - 32*(1+c.r.Intn(k))
+				}
+			} else if words := (len(d) - 4) / 32; words >= 1 {
+				// at a word boundary of the argument block: right behind the selector, in front of the
+				// last word, or anywhere
+				switch c.r.Intn(3) {
+				case 0:
+					pos = 4
+				case 1:
+					pos = 4 + 32*(words-1)
+				default:
+					pos = 4 + 32*c.r.Intn(words)
+				}
+			}
+			if pos <= 0 || pos >= len(d) {
+				return nil
+			}
+			return insertAt(d, pos, ext)
+		}},
+		{Name: "duplicated-tail", Actions: allActions, Bytes: func(c *corruptCtx, s *txSpec, d []byte) []byte {
+			// the data is followed by a copy of its own last N bytes: the last word(s), or the whole
+			// argument block (for a contract creation: the constructor input a second time)
+			whole := len(d) - 4
+			if s.Action == actUpload {
+				whole = len(d) - s.Split
+			}
+			n := []int{32, 64, whole, whole}[c.r.Intn(4)]
+			if n <= 0 || n > len(d) {
+				return nil
+			}
+			return append(append([]byte{}, d...), d[len(d)-n:]...)
+		}},
+		{Name: "upload-constructor-args-inserted", Actions: []string{actUpload}, Bytes: func(c *corruptCtx, s *txSpec, d []byte) []byte {
+			// bytecode ++ OTHER constructor arguments ++ the constructor arguments of the message: init
+			// code reads its arguments right behind the bytecode, the expected ones are dead bytes
+			if s.Split <= 0 || s.Split >= len(d) {
+				return nil
+			}
+			args := d[s.Split:]
+			var other []byte
+			if c.r.Intn(3) > 0 {
+				other = otherConstructorArgs(c, args)
+			}
+			if other == nil {
+				other = append([]byte{}, args...)
+				other[c.r.Intn(len(other))] ^= byte(1 << uint(c.r.Intn(8)))
+			}
+			return insertAt(d, s.Split, other)
+		}},
 	}
+}
+
+func insertAt(d []byte, pos int, ext []byte) []byte {
+	o := make([]byte, 0, len(d)+len(ext))
+	o = append(o, d[:pos]...)
+	o = append(o, ext...)
+	return append(o, d[pos:]...)
+}
+
+// otherConstructorArgs: the compass constructor arguments of the message with the validator set
+// replaced by one of the sender's choosing (public compass ABI; nil if the arguments do not decode).
+func otherConstructorArgs(c *corruptCtx, args []byte) []byte {
+	a := compassABI()
+	params, err := a.Constructor.Inputs.Unpack(args)
+	if err != nil || len(params) != len(a.Constructor.Inputs) {
+		return nil
+	}
+	for i, in := range a.Constructor.Inputs {
+		if in.Name != "valset" {
+			continue
+		}
+		vs := valsetT{ValsetId: big.NewInt(int64(1 + c.r.Intn(5))), Validators: []common.Address{}, Powers: []*big.Int{}}
+		for k := 1 + c.r.Intn(3); k > 0; k-- {
+			var ad common.Address
+			c.r.Read(ad[:])
+			vs.Validators = append(vs.Validators, ad)
+			vs.Powers = append(vs.Powers, big.NewInt(int64(1<<30+c.r.Intn(1<<30))))
+		}
+		params[i] = vs
+		out, err := a.Pack("", params...)
+		if err != nil || bytes.Equal(out, args) {
+			return nil
+		}
+		return out
+	}
+	return nil
 }
 
 // feeMix: right values in wrong slots - two fees swapped, or one fee repeated in another slot.
